@@ -172,12 +172,14 @@ class Scan:
         # separate actor for who-may-write / who-may-call rules (unless it is also passed around as a value)
         from .sym import baseline_functions, _strip_at
         inlined, as_value = set(), set()
-        for ps in self.paths.values():
+        self.helper_callers: t.Dict[str, t.Set[str]] = {}
+        for (cq_, _r), ps in self.paths.items():
             for p in ps:
                 for e in p.events:
                     if e.kind == "call" and e.inlined:
                         for f in list(e.targets) + ([e.helper] if e.helper is not None else []):
                             inlined.add(f.qual)
+                            self.helper_callers.setdefault(f.qual, set()).add(e.func.qual if e.func is not None else cq_)
                     for tm in list(e.args or ()) + [v for _, v in (e.kwargs or ())] + ([e.cb] if e.cb is not None else []) + \
                             ([e.value] if isinstance(e.value, tuple) else []):
                         if isinstance(tm, tuple):
@@ -185,6 +187,22 @@ class Scan:
                                 if s_[0] in ("bound", "func") and isinstance(s_[-1], str):
                                     as_value.add(s_[-1])
         self.absorbed = {q for q in inlined if _strip_at(q) not in baseline_functions() and q not in as_value}
+
+    def internal_helper(self, fi: FuncInfo) -> bool:
+        """an extracted helper that only serves functions of its own class / module (it is judged as part of them);
+        a new function that other classes call is an interface of its own"""
+        if fi.qual not in self.absorbed:
+            return False
+        for c in self.helper_callers.get(fi.qual, ()):
+            cf = self.prog.functions.get(c)
+            if cf is None:
+                return False
+            if fi.cls is not None:
+                if cf.cls is None or cf.cls.qual != fi.cls.qual:
+                    return False
+            elif cf.module is not fi.module:
+                return False
+        return True
 
     def events(self, qual: str, recv: t.Optional[str] = None) -> t.List[Event]:
         fi = self.prog.func(qual)
